@@ -5,7 +5,8 @@
      far  = Universal2DBox::too_far(candidate, track)          (decided elsewhere: BoxProofs.too_far_sq_correct_lemma)
      dist = the Kalman filter's Mahalanobis distance             (C07)
      iou  = Universal2DBox::calculate_metric_object(cand, track) (C08)
-   result: None (pair dropped by the pre-filter) | Some (weight option, None). *)
+   result: None (pair dropped by the pre-filter) | Some (weight option, None).
+   Proofs go by case analysis on the comparisons that occur in the translated text (no syntactic matching of the body). *)
 From Coq Require Import ZArith NArith QArith Bool List Lqa.
 From Similari Require Import Base.Num Proofs.CostProofs.
 From SimilariGen Require Import Consts Scalar ScalarBox ScalarCost ScalarGate.
@@ -14,7 +15,17 @@ Open Scope Q_scope.
 
 Import CostProofs.QTk.
 
-Ltac qops := cbn [T zero one add sub mul div opp abs max min leb ltb floor of_Q Qops] in *.
+(* case analysis on every comparison under an [if] of hypothesis H; the outcomes become hypotheses in Prop *)
+Ltac cases_if_in H := repeat match type of H with
+  | context [if ?c then _ else _] =>
+      let E := fresh "E" in destruct c eqn:E;
+      [ first [apply Qltb_iff in E | apply Qle_bool_iff in E | idtac] | first [apply Qltb_false_iff in E | apply Qleb_false_iff in E | idtac] ]
+  end.
+(* name every [Qred x] as a variable r with r == x (so that injection / subst do not unfold it) *)
+Ltac name_red := repeat match goal with
+  | |- context [Qred ?x] => let H := fresh "Hred" in pose proof (Qred_correct x) as H; generalize dependent (Qred x); intros
+  | _ : context [Qred ?x] |- _ => let H := fresh "Hred" in pose proof (Qred_correct x) as H; generalize dependent (Qred x); intros
+  end.
 
 (* the confidence actually used: the candidate's, raised to min_confidence *)
 Definition sort_conf (mc : Q) (cand : Universal2DBox Qops) : Q :=
@@ -37,27 +48,18 @@ Proof.
   - rewrite G. field. lra.
 Qed.
 
-(* the function, by cases *)
+(* the pre-filter: a pair that is too far gets no answer at all, in either mode *)
 Lemma sort_metric_far_lemma (mc : Q) m cand trk (d : Q) (iou : option Q) : sort_metric Qops mc m cand trk true d iou = None.
 Proof. reflexivity. Qed.
 
-Lemma sort_metric_maha_spec (mc : Q) cand trk (d : Q) (iou : option Q) :
-  sort_metric Qops mc (PositionalMetricType_Mahalanobis Qops) cand trk false d iou =
-  Some (Some (Qred (box_calculate_cost Qops d true / sort_conf mc cand)), None).
-Proof. reflexivity. Qed.
-
-Lemma sort_metric_iou_spec (mc thr : Q) cand trk (d : Q) (iou : option Q) :
-  sort_metric Qops mc (PositionalMetricType_IoU Qops thr) cand trk false d iou =
-  Some (match iou with
-        | Some i => if Qle_bool thr (Qred (i * sort_conf mc cand)) then Some (Qred (i * sort_conf mc cand)) else None
-        | None => None
-        end, None).
-Proof. destruct iou; reflexivity. Qed.
-
-(* any answer at all means the pre-filter did not fire *)
 Lemma sort_metric_some_not_far (mc : Q) m cand trk far (d : Q) (iou : option Q) r :
   sort_metric Qops mc m cand trk far d iou = Some r -> far = false.
 Proof. destruct far; [rewrite sort_metric_far_lemma; discriminate | reflexivity]. Qed.
+
+(* a pair that is not too far always gets an answer whose second (feature distance) component is None *)
+Lemma sort_metric_not_far_some (mc : Q) m cand trk (d : Q) (iou : option Q) :
+  exists w, sort_metric Qops mc m cand trk false d iou = Some (w, None).
+Proof. unfold sort_metric. qops. destruct m; eexists; reflexivity. Qed.
 
 (* IoU mode: a weight is reported only for a pair that is not too far, has an IoU, and whose confidence-scaled IoU
    reaches the threshold; the weight is that scaled IoU *)
@@ -65,26 +67,22 @@ Lemma gate_iou (mc thr : Q) cand trk far (d : Q) (iou : option Q) (w : Q) x :
   sort_metric Qops mc (PositionalMetricType_IoU Qops thr) cand trk far d iou = Some (Some w, x) ->
   far = false /\ x = None /\ exists i, iou = Some i /\ w == i * sort_conf mc cand /\ thr <= w.
 Proof.
-  intro H. pose proof (sort_metric_some_not_far _ _ _ _ _ _ _ _ H) as Hf. subst far.
-  rewrite sort_metric_iou_spec in H. split; [reflexivity|]. destruct iou as [i|]; [|discriminate].
-  remember (Qred (i * sort_conf mc cand)) as v eqn:Ev.
-  destruct (Qle_bool thr v) eqn:E; [|discriminate].
-  injection H as Hw Hx. subst w x. split; [reflexivity|]. exists i. split; [reflexivity|]. split.
-  - rewrite Ev. apply Qred_correct.
-  - apply Qle_bool_iff in E. exact E.
+  intro H. pose proof (sort_metric_some_not_far _ _ _ _ _ _ _ _ H) as Hf. subst far. split; [reflexivity|].
+  unfold sort_metric in H. qops. unfold sort_conf.
+  destruct iou as [i|]; [|cases_if_in H; discriminate H].
+  name_red. cases_if_in H; try discriminate H;
+  (injection H as Hw Hx; subst; split; [reflexivity|]; exists i; split; [reflexivity|]; split; lra).
 Qed.
 
-(* ... and conversely no weight means: no IoU or below the threshold *)
+(* ... and no weight means: no IoU, or the scaled IoU does not exceed the threshold *)
 Lemma gate_iou_rejected (mc thr : Q) cand trk far (d : Q) (iou : option Q) x :
   sort_metric Qops mc (PositionalMetricType_IoU Qops thr) cand trk far d iou = Some (None, x) ->
-  far = false /\ (iou = None \/ exists i, iou = Some i /\ i * sort_conf mc cand < thr).
+  far = false /\ (iou = None \/ exists i, iou = Some i /\ i * sort_conf mc cand <= thr).
 Proof.
-  intro H. pose proof (sort_metric_some_not_far _ _ _ _ _ _ _ _ H) as Hf. subst far.
-  rewrite sort_metric_iou_spec in H. split; [reflexivity|]. destruct iou as [i|]; [|left; reflexivity].
-  right. exists i. split; [reflexivity|].
-  destruct (Qle_bool thr (Qred (i * sort_conf mc cand))) eqn:E; [discriminate|].
-  assert (G : Qltb (Qred (i * sort_conf mc cand)) thr = true) by (unfold Qltb; rewrite E; reflexivity).
-  apply Qltb_iff in G. rewrite Qred_correct in G. exact G.
+  intro H. pose proof (sort_metric_some_not_far _ _ _ _ _ _ _ _ H) as Hf. subst far. split; [reflexivity|].
+  unfold sort_metric in H. qops. unfold sort_conf.
+  destruct iou as [i|]; [|left; reflexivity]. right. exists i. split; [reflexivity|].
+  name_red. cases_if_in H; try discriminate H; lra.
 Qed.
 
 (* Mahalanobis mode: every pair that passes the pre-filter gets the weight (inverted cost)/confidence; with a positive
@@ -94,28 +92,27 @@ Lemma gate_maha (mc : Q) cand trk far (d : Q) (iou : option Q) (w : Q) x :
   far = false /\ x = None /\ w == box_calculate_cost Qops d true / sort_conf mc cand /\
   (0 < mc -> (0 < w <-> d <= box_gate) /\ (box_gate < d -> w == 0)).
 Proof.
-  intro H. pose proof (sort_metric_some_not_far _ _ _ _ _ _ _ _ H) as Hf. subst far.
-  rewrite sort_metric_maha_spec in H.
-  remember (Qred (box_calculate_cost Qops d true / sort_conf mc cand)) as v eqn:Ev.
-  injection H as Hw Hx. subst w x.
-  assert (Ew : v == box_calculate_cost Qops d true / sort_conf mc cand) by (rewrite Ev; apply Qred_correct).
-  clear Ev.
-  split; [reflexivity|]. split; [reflexivity|]. split; [exact Ew|].
+  intro H. pose proof (sort_metric_some_not_far _ _ _ _ _ _ _ _ H) as Hf. subst far. split; [reflexivity|].
+  assert (Ew : x = None /\ w == box_calculate_cost Qops d true / sort_conf mc cand).
+  { unfold sort_metric in H. qops. unfold sort_conf. name_red.
+    cases_if_in H; injection H as Hw Hx; subst; split; try reflexivity; lra. }
+  destruct Ew as [Ex Ew]. split; [exact Ex|]. split; [exact Ew|].
   intro Hmc.
   destruct (sort_conf_is_max mc cand) as [Hc _].
   assert (Hc0 : 0 < sort_conf mc cand) by lra.
   destruct (div_pos_facts (box_calculate_cost Qops d true) (sort_conf mc cand) Hc0) as [D1 D2].
   split.
   - rewrite Ew, D1. apply box_cost_inverted_pos_iff.
-  - intro G. rewrite Ew. apply D2. rewrite (box_cost_inverted_out_of_gate d G). reflexivity.
+  - intro G. rewrite Ew. apply D2. apply (box_cost_inverted_out_of_gate d G).
 Qed.
 
 (* Mahalanobis mode never reports "no weight" for a pair that passes the pre-filter *)
 Lemma gate_maha_total (mc : Q) cand trk (d : Q) (iou : option Q) :
   exists w, sort_metric Qops mc (PositionalMetricType_Mahalanobis Qops) cand trk false d iou = Some (Some w, None).
-Proof. eexists. apply sort_metric_maha_spec. Qed.
+Proof. unfold sort_metric. qops. eexists. reflexivity. Qed.
 
 (* expiry: a track is wasted exactly when last_updated + max_idle < current epoch of its scene (0 if the scene is unknown) *)
 Lemma baked_wasted_cmp_spec last_updated max_idle cur :
-  baked_wasted_cmp Qops last_updated max_idle cur = (last_updated + max_idle <? match cur with Some e => e | None => 0 end)%N.
-Proof. reflexivity. Qed.
+  baked_wasted_cmp Qops last_updated max_idle cur = true <->
+  (last_updated + max_idle < match cur with Some e => e | None => 0 end)%N.
+Proof. unfold baked_wasted_cmp. destruct cur; apply N.ltb_lt. Qed.
